@@ -6,6 +6,7 @@ package main
 
 import (
 	"bufio"
+	"context"
 	"crypto/sha1"
 	"encoding/json"
 	"flag"
@@ -220,7 +221,9 @@ func runItem(prop, tier string, idx int, deadline time.Time, maxExecs int) *Item
 		}
 		// differential against the unmodified package
 		if pb := os.Getenv("MC_PRISTINE"); pb != "" {
-			cmd := exec.Command(pb, "chunk", prop, tier, strconv.Itoa(chunkIndex(prop, tier, it.Name)))
+			ctx, cancel := context.WithTimeout(context.Background(), 15*time.Minute)
+			defer cancel()
+			cmd := exec.CommandContext(ctx, pb, "chunk", prop, tier, strconv.Itoa(chunkIndex(prop, tier, it.Name)))
 			cmd.Stdin = strings.NewReader(strings.Join(env.Skipped, "\n") + "\n")
 			out, err := cmd.Output()
 			var pr struct {
